@@ -304,6 +304,7 @@ func runC05(r *Run) {
 	oogIsFailure(r)
 	effectIsFirstWrite(r)
 	flushAfterValidation(r)
+	handlerRunsOnBranch(r)
 
 	// ---------- R5 ----------
 	r.Rule("R5", "PATH.flush-skip: StateDB.Commit runs in the middle of a transaction (before every precompile dispatch), so 'nothing to write' for a dirty slot is judged against what an earlier flush of this transaction wrote (transientStorage) whenever such a value exists, and against the originally loaded value only when it does not: the comparison with originStorage is reachable only over the not-found edge of the transientStorage lookup, and each SetState is followed by recording the value in transientStorage — otherwise a slot flushed inside a frame that later reverts keeps the reverted value in the store")
@@ -559,6 +560,88 @@ func flushAfterValidation(r *Run) {
 			"Run can flush the pending EVM state without RunSetup having accepted the call", P.witness(append(w1, w2...))...)
 	}
 	r.Floor("R8", "stateful precompile Run methods that flush", n, 3)
+}
+
+// handlerRunsOnBranch (C05 R9): a failed precompile call leaves no Cosmos-side write.
+func handlerRunsOnBranch(r *Run) {
+	P := r.P
+	r.Rule("R9", "PATH.failed-call-leaves-no-writes: the SDK's message servers are not atomic on their own (hooks run before the bank move, reference counts change before payouts), and a precompile call can fail half way — an error, or out of gas at a point the caller chooses with call{gas: g}. In every Run of a wired precompile with Cosmos-side effects the handlers receive a context obtained from CacheContext(); the write function of that branch is called on every success exit and is not reachable on any path to a failure exit — so a failed call that the calling contract tolerates commits nothing of the torn message")
+	n := 0
+	for _, m := range wiredPrecompiles(r) {
+		if !m.Stateful || m.Run == nil {
+			continue
+		}
+		hasEffect := false
+		for _, h := range m.Handlers {
+			if h.Fn != nil && h.IsTx && len(effectSites(h.Fn, 3, map[*ssa.Function]bool{})) > 0 {
+				hasEffect = true
+			}
+		}
+		if !hasEffect {
+			continue
+		}
+		n++
+		var cache *ssa.Call
+		eachInstr(m.Run, func(in ssa.Instruction) {
+			if c, ok := in.(*ssa.Call); ok && callInfo(c).Name == "CacheContext" {
+				cache = c
+			}
+		})
+		inst := fnID(m.Run) + "#handlers-run-on-a-branch"
+		if cache == nil {
+			r.Bad("R9", inst, P.Pos(fnPos(m.Run)), "Run dispatches its handlers on the transaction's own context (no CacheContext): whatever a handler wrote before it failed — a hook's reference-count update, a debit without its credit — stays when the calling contract swallows the failure")
+			continue
+		}
+		isBranchCtx := func(v ssa.Value) bool {
+			ok := false
+			backSlice(v).Any(func(x ssa.Value) bool {
+				if ex, isE := x.(*ssa.Extract); isE && ex.Tuple == ssa.Value(cache) && ex.Index == 0 {
+					ok = true
+				}
+				return ok
+			})
+			return ok
+		}
+		bad := ""
+		for _, h := range m.Handlers {
+			if h.Call == nil {
+				continue
+			}
+			okCtx := false
+			for _, a := range h.Call.Common().Args {
+				if namedName(a.Type()) == "Context" && isBranchCtx(a) {
+					okCtx = true
+				}
+			}
+			if !okCtx && bad == "" {
+				bad = "handler of " + h.Method + " is not given the branch context"
+			}
+		}
+		isWrite := func(in ssa.Instruction) bool {
+			c, ok := in.(ssa.CallInstruction)
+			if !ok {
+				return false
+			}
+			ex, isE := c.Common().Value.(*ssa.Extract)
+			return isE && ex.Tuple == ssa.Value(cache) && ex.Index == 1
+		}
+		w1 := PathQuery{Fn: m.Run, Start: cache, Block: isWrite, Target: func(x ssa.Instruction) bool {
+			ret, ok := x.(*ssa.Return)
+			return ok && classifyExit(ret) == ExitSuccess
+		}}.Search()
+		var w2 []ssa.Instruction
+		eachInstr(m.Run, func(in ssa.Instruction) {
+			if isWrite(in) && w2 == nil {
+				w2 = PathQuery{Fn: m.Run, Start: in, Target: func(x ssa.Instruction) bool {
+					ret, ok := x.(*ssa.Return)
+					return ok && classifyExit(ret) == ExitFailure
+				}}.Search()
+			}
+		})
+		r.Check(bad == "" && w1 == nil && w2 == nil, "R9", inst, P.Pos(fnPos(m.Run)), "handlers get the CacheContext branch; it is written on every success exit and on no failure path",
+			"the precompile's Run does not confine its handlers to a state branch that is written only on success ("+bad+"): a failed call can leave part of an SDK message in the store", P.witness(append(w1, w2...))...)
+	}
+	r.Floor("R9", "wired precompiles with Cosmos-side effects", n, 3)
 }
 
 // oogIsFailure (C05 R6).
